@@ -51,6 +51,12 @@ def make_pool(rng):
         "imf": PowerLawIMF(list(mb), list(a), N0=rng.choice([1, 5e5])),
         "f_BH": None,
     }
+    # the BH-fraction targets are an argument object too: shared between constructions, as an ndarray (which the constructor may alias) or a list,
+    # with targets on both sides of the fraction that forms (non-strict mode: unreachable ones only warn)
+    n = len(np.atleast_1d(pool["tout"]))
+    u = rng.random()
+    vals = [rng.choice([1e-5, 0.003, 0.02, 0.2, 0.5]) for _ in range(n)]
+    pool["f_BH"] = np.array(vals) if u < 0.6 else (vals if u < 0.85 else None)
     return pool
 
 
@@ -83,7 +89,7 @@ def do_call(c, pool, fresh=False):
                                        BH_IFMR_kwargs=bhk, WD_IFMR_kwargs=wdk, binning_breaks=p["m_breaks"])
         if c["kind"] == "EvolvedMFWithBH":
             n = len(np.atleast_1d(p["tout"]))
-            fb = [1e-5] * n
+            fb = p["f_BH"] if p.get("f_BH") is not None else [1e-5] * n
             return evolve_mf.EvolvedMFWithBH(p["imf"], p["nbins"], c["FeH"], p["tout"], 0.0, fb, N0=c["N0"], strict_BH_target=False,
                                              BH_IFMR_method=c["BH_method"], BH_IFMR_kwargs=bhk, WD_IFMR_kwargs=wdk)
         if c["kind"] == "InitialBHPopulation":
